@@ -977,7 +977,20 @@ func (x *SExec) doWrite(i int, op SOp) *Fail {
 	for _, j := range W {
 		if !applied[j] {
 			if m, ok := listed[st.Nodes[j].Addr]; ok {
-				return sfail(op.K+"|failed-replica-still-attached", fmt.Sprintf("n%d failed the %s (outcome %s) but is still listed as %s when the call returned", j, op.K, outcomeOf(op, j), m), "C02", "C05")
+				props := []string{"C02", "C05"}
+				detail := fmt.Sprintf("n%d failed the %s (outcome %s) but is still listed as %s when the call returned", j, op.K, outcomeOf(op, j), m)
+				upToDate := 0
+				for a := range applied {
+					if modeBefore[a] == types.RW {
+						upToDate++
+					}
+				}
+				if vs := c.VerifState(); m == types.RW && !vs.ReadOnly && upToDate < x.P.RF/2+1 {
+					// the replica that missed it still counts as up to date: the volume stays writable below its quorum
+					props = append(props, "C03")
+					detail += fmt.Sprintf("; the volume stays writable (RWReplicaCount=%d) although only %d of RF=%d replicas are up to date", vs.RWReplicaCount, upToDate, x.P.RF)
+				}
+				return sfail(op.K+"|failed-replica-still-attached", detail, props...)
 			}
 		}
 	}
